@@ -22,7 +22,8 @@ CONSTANTS MaxLen,      \* longest element sequence
           Emit         \* print every case with its reference answer (spec -> code)
 
 Mappings  == {"dict", "odict", "mproxy", "cmap"}
-Structs   == {"dc", "dcslots", "plain", "slotsonly", "varsonly"}
+\* ("...child": the class inherits its first fields from a base of the same flavour and declares the rest itself)
+Structs   == {"dc", "dcslots", "plain", "slotsonly", "varsonly", "dcchild", "dcslotschild"}
 NTs       == {"nt"}
 \* classes for which inspection.issequencetype holds (peeked with next(iter(x), ()))
 SeqLike   == {"list", "tuple", "set", "frozenset", "deque", "str", "bytes"}
